@@ -82,7 +82,9 @@ def run(ctx):
             c, alpha = r.choice(cols)
             f = rec[:-len(eol)].split("\t")
             ch = r.choice([chr(b) for b in range(33, 127) if chr(b) not in alpha and chr(b).upper() not in alpha])
-            f[c] = ch
+            # the foreign character alone, or after / before / between characters of the alphabet
+            ok_ = r.choice(alpha)
+            f[c] = r.choice([ch, ch, ok_ + ch, ch + ok_, ok_ + ch + r.choice(alpha)])
             raws[pos] = "\t".join(f) + eol
             line = pos
         elif cls in ("extra-column", "missing-column"):
